@@ -26,6 +26,18 @@ NOTES = {
  "S-C18-record-before-promotion": ("advance_migration records satisfiability findings before applying mined promotions", "one call combining a promotion of a transaction whose expiry lies below the scanned target, pending dependents of it, and a marking finding on another in-flight transaction", "no"),
  "S-C19-distinct-indices-early-break": ("distinct_indices stops comparing early", "a solution whose repeated index is not at the first position of either half (non-trivial duplicate)", "no"),
  "S-C20-peaks-cache-after-truncate": ("truncate_leaf leaves a merged entry in the remembered peaks", "truncate at an even leaf count with >= 3 peaks, followed by enough appends to carry into the merged peak", "no"),
+ "S2-C01-internal-note-skips-spend-detection": ("put_shielded_outputs no longer looks up earlier-seen spends for change (AccountInternal) notes", "X -> tx1 -> change C -> tx2 with tx2's block scanned before tx1's and X's block already scanned", "no"),
+ "S2-C02-summary-tip-read-outside-transaction": ("get_wallet_summary reads the chain tip before opening its read transaction", "a writer on another connection committing a tip-changing write inside a 16-step window of the reader", "no"),
+ "S2-C03-joinsplit-vpub-signed": ("JoinSplit vpub_old/vpub_new decoded as signed amounts", "a v2-v4 transaction with a JoinSplit whose vpub field has all high bytes 0xff (negative)", "no"),
+ "S2-C04-v4-single-anyonecanpay-unmasked": ("ZIP 143/243 sighash compares the unmasked hash type with SIGHASH_SINGLE", "hash type exactly 0x83 on a v3/v4 transaction with input index below the output count", "no"),
+ "S2-C05-skip-spend-only-tx": ("the compact scanner skips transactions without shielded outputs before looking at their spends", "a transaction with a Sapling spend and no shielded output in any pool", "no"),
+ "S2-C06-remined-note-keeps-stale-position": ("received-note upsert never overwrites a recorded commitment tree position", "a wallet transaction scanned, reorganised away and mined again at another tree position", "yes: the chain model had no re-mined transactions and C06 witnessed at the model's position; Op::ReMine + tx-based ledger + witnesses at the wallet's recorded positions were added"),
+ "S2-C07-dust-to-fee-with-memo-double-counted": ("AddDustToFee with a kept change memo keeps the dust both in the change note and in the fee", "AddDustToFee, a change memo, 0 < surplus < dust threshold", "no"),
+ "S2-C11-ufvk-encode-drops-unknown-items": ("UnifiedFullViewingKey::encode rewritten without the unknown items", "a decoded UFVK carrying an unknown-typecode item or an item of a pool whose feature is off", "no"),
+ "S2-C12-checks-depend-on-param-order": ("zero-amount / memo checks run only once the address parameter was seen", "amount=0 or memo= before address= of the same payment index", "no"),
+ "S2-C13-outputs-merge-reads-inputs-flag": ("transparent Bundle::merge reads inputs_modifiable for the outputs rule", "copies whose inputs/outputs modifiable flags differ (non-ALL sighash types) and a copy with more outputs, in one order", "yes: the combine generator only produced structurally identical copies with equal flags; Constructor-extended copies and all sighash types were added"),
+ "S2-C15-queue-rescans-unsorted-span": ("queue_rescans computes its query span with max(span.start, r.end)", "several rescan ranges not in ascending order, an earlier one crossing a queue row boundary", "yes: the wallet histories never called queue_rescans; a Rescan operation (1-4 ranges, any order, every priority) with the forced dominance rule asserted pointwise was added"),
+ "S2-C16-exact-funding-above-cap": ("single-note exact-funding guard loses its upper bound", "the whole balance in one note worth exactly a 1-2-5 value above 10000 ZEC plus the transfer buffer", "no"),
 }
 rows = []
 for d in sorted(glob.glob(os.path.join(ROOT, "seeded", "S-*"))):
